@@ -17,7 +17,7 @@ RULE = (
     "A world (as in C01, Fock modes with different cut-offs), 2-3 operation 'slots' (generated descriptions: same "
     "or different type; in particular pairs of composite Expression operations with different operand types, "
     "pairs of the same Fock type with different parameters) and a generated schedule of 3-8 events "
-    "construct(slot) / apply(slot, entry, operands) in which slots are re-constructed and re-applied to operands "
+    "construct(slot) / failed-construct(slot's type, a required parameter missing, other operand types) / apply(slot, entry, operands) in which slots are re-constructed and re-applied to operands "
     "of different dimension and in different containers. Twin A executes the schedule with one long-lived "
     "Operation object per slot; twin B, on an identically prepared world, applies a freshly constructed equal "
     "Operation at every apply and performs no other constructions. Oracle (metamorphic): after every apply both "
@@ -86,7 +86,12 @@ def _case(draw):
     events = []
     for _ in range(draw(st.integers(3, 8))):
         i = draw(st.integers(0, nslots - 1))
-        if draw(st.integers(0, 2)) == 0:
+        r_ = draw(st.integers(0, 8))
+        if r_ == 0:
+            # a construction that FAILS (a required parameter is missing, for Expression types with other
+            # operand types): it must not leave anything behind on the shared operation type
+            events.append(dict(ev="construct_bad", slot=i, variant=draw(st.integers(0, 3))))
+        elif r_ <= 3:
             events.append(dict(ev="construct", slot=i))
         else:
             op = slots[i]["op"]
@@ -115,6 +120,34 @@ def strategy(tier):
     return _case()
 
 
+def _bad_construction(opdesc, variant):
+    """try to construct an operation of the same type with a required parameter missing"""
+    from photon_weave.operation import CompositeOperationType, CustomStateOperationType, FockOperationType, Operation, PolarizationOperationType
+    from photon_weave.state.custom_state import CustomState
+    from photon_weave.state.fock import Fock
+    from photon_weave.state.polarization import Polarization
+
+    fam, name = opdesc["type"].split(":")
+    try:
+        if fam == "comp" and name == "Expression":
+            types = [(Fock, Fock), (Polarization, Polarization), (CustomState, Fock), (Polarization,)][variant % 4]
+            Operation(CompositeOperationType.Expression, state_types=types, context={})      # 'expr' missing
+        elif fam == "comp" and name == "BS":
+            Operation(CompositeOperationType.NonPolarizingBeamSplitter)
+        elif fam == "fock":
+            typ = {"PhaseShift": FockOperationType.PhaseShift, "Displace": FockOperationType.Displace, "Squeeze": FockOperationType.Squeeze,
+                   "Custom": FockOperationType.Custom, "Expresion": FockOperationType.Expresion}.get(name, FockOperationType.PhaseShift)
+            Operation(typ)
+        elif fam == "pol":
+            Operation({"U3": PolarizationOperationType.U3, "Custom": PolarizationOperationType.Custom}.get(name, PolarizationOperationType.RX))
+        elif fam == "custom":
+            Operation(CustomStateOperationType.Custom if name == "Custom" else CustomStateOperationType.Expresion)
+        else:
+            Operation(CompositeOperationType.Expression, state_types=(Polarization, Fock), context={})
+    except Exception:  # the failure itself is expected
+        pass
+
+
 def _tdims(w, targets):
     return [w.dim(t) if w.dim(t) > 0 else (int(w.obj[t].state) + 2 if isinstance(w.obj[t].state, int) else 2) for t in targets]
 
@@ -138,6 +171,10 @@ def _twin(case, shared: bool):
     for ev in case["events"]:
         slot = case["slots"][ev["slot"]]
         fam = slot["op"]["type"].split(":")[0]
+        if ev["ev"] == "construct_bad":
+            if shared:
+                _bad_construction(slot["op"], ev.get("variant", 0))
+            continue
         if ev["ev"] == "construct":
             if shared:
                 # sized operators (Custom) are built for the slot's default operands
